@@ -43,9 +43,19 @@ func actArgs(a Act) string {
 
 func runRspamd(t *testing.T, r Row, o *Out) {
 	in := r.In
-	ln, err := net.Listen("tcp4", "127.0.0.1:0")
-	if err != nil {
-		t.Fatalf("row %d: listen: %v", r.ID, err)
+	var ln net.Listener
+	var api string
+	if in.Resp.K == "refused" {
+		addr, release := reservedPort(t)
+		defer release()
+		api = "http://" + addr
+	} else {
+		var err error
+		ln, err = net.Listen("tcp4", "127.0.0.1:0")
+		if err != nil {
+			t.Fatalf("row %d: listen: %v", r.ID, err)
+		}
+		api = "http://" + ln.Addr().String()
 	}
 	var mu sync.Mutex
 	nreq := 0
@@ -103,10 +113,7 @@ func runRspamd(t *testing.T, r Row, o *Out) {
 			panic("unknown response kind " + rp.K)
 		}
 	})}
-	api := "http://" + ln.Addr().String()
-	if in.Resp.K == "refused" {
-		ln.Close()
-	} else {
+	if ln != nil {
 		go func() { _ = srv.Serve(ln) }()
 		defer srv.Close()
 	}
@@ -142,8 +149,8 @@ func runRspamd(t *testing.T, r Row, o *Out) {
 	} else {
 		b.WriteString("    rspamd " + api + "\n")
 	}
-	b.WriteString("}\ndeliver_to &x07target\n")
-	pipe := buildPipeline(t, r, o, b.String())
+	b.WriteString("}\n")
+	pipe := buildPipeline(t, r, o, placed(in, b.String()))
 	if pipe == nil {
 		return
 	}
